@@ -184,6 +184,62 @@ func vrtCall(fr *frame, fn *ssa.Function, args []Val) Val {
 			unsupported(fmt.Sprintf("zzvrt.Guard on %T", obj.v))
 		}
 		return nil
+	case "GuardField":
+		// Guard(table, the mutex stored in field <name> of the struct *holder)
+		obj, _ := args[0].(Iface)
+		holder, _ := args[1].(Iface)
+		field := strArg(args[2])
+		hp, ok := holder.v.(*Val)
+		if !ok || hp == nil {
+			unsupported("zzvrt.GuardField: holder must be a pointer to a struct")
+		}
+		st, ok := deref(holder.t).Underlying().(*types.Struct)
+		if !ok {
+			unsupported("zzvrt.GuardField: holder is not a struct pointer")
+		}
+		var mu Val
+		found := false
+		var walk func(sv Struct, st *types.Struct)
+		walk = func(sv Struct, st *types.Struct) {
+			for i := 0; i < st.NumFields() && !found; i++ {
+				if st.Field(i).Name() == field {
+					mu, found = sv[i], true
+					return
+				}
+				if st.Field(i).Embedded() {
+					if es, ok := st.Field(i).Type().Underlying().(*types.Struct); ok {
+						if esv, ok := sv[i].(Struct); ok {
+							walk(esv, es)
+						}
+					}
+				}
+			}
+		}
+		walk((*hp).(Struct), st)
+		if !found {
+			unsupported("zzvrt.GuardField: no field " + field)
+		}
+		for {
+			if i, isI := mu.(Iface); isI {
+				mu = i.v
+				continue
+			}
+			break
+		}
+		mp, ok := mu.(*Val)
+		if !ok || mp == nil {
+			// not synchronised: nothing guards the table (every access is a violation by definition)
+			mp = new(Val)
+		}
+		g := &guardInfo{mu: mp, name: strArg(args[3])}
+		if x, ok := obj.v.(*Map); ok && x != nil {
+			old := x.guard
+			logUndo(func() { x.guard = old })
+			x.guard = g
+		} else {
+			unsupported(fmt.Sprintf("zzvrt.GuardField on %T", obj.v))
+		}
+		return nil
 	case "GuardViolations":
 		for _, g := range in.path.guardViol {
 			in.path.traces = append(in.path.traces, "GUARD "+g)
